@@ -530,6 +530,100 @@ def cancel_in_sweep_session(kind, hook_sleep, reset_after):
     return obs
 
 
+def receiver_cancelled_session(hook_sleep, reset_after, kind):
+    """A and B are outstanding; A's time-to-live (1 s) runs out; the SMSC answers B 1.3 s after it was written: correlator.get() takes B out
+    of the store and then sweeps, which awaits the application's send_error hook for A (`hook_sleep` seconds); `reset_after` seconds into
+    the hook the connection is lost and the session is torn down - the receiver is cancelled inside the correlation of B's response."""
+    from aiosmpplib.protocol import SubmitSm, SubmitSmResp, GenericNack
+    from aiosmpplib.state import PhoneNumber
+    from aiosmpplib.correlator import SimpleCorrelator
+    from aiosmpplib.retrytimer import SimpleExponentialBackoff
+    loop = vsess.VLoop()
+    asyncio.set_event_loop(loop)
+    smsc = vsess.FakeSMSC(loop)
+    undo = vsess.install(loop, smsc)
+    obs = {'outcomes': [], 'resp_pdus': [], 'fed': []}
+    try:
+        esme, hook = vsess.quiet_esme(enquire_link_interval=50.0, socket_timeout=100.0, correlator=SimpleCorrelator('crc', max_ttl_response=1.0),
+                                      retry_timer=SimpleExponentialBackoff(200, 2))
+        count = [0]
+
+        def on_pdu(conn, pdu):
+            for p in vsess.split_pdus(pdu)[0]:
+                cmd, seq = struct.unpack('>I', p[4:8])[0], struct.unpack('>I', p[12:16])[0]
+                if cmd in (1, 2, 9):
+                    conn.send(vsess.bind_resp_for(p))
+                elif cmd == 0x15:
+                    conn.send(smppref.header(0x80000015, 0, seq), delay=0.01)
+                elif cmd == 4 and conn.index == 0:
+                    count[0] += 1
+                    if count[0] >= 2:                           # A is never answered; B (all of its segments) is, 1.3 s later
+                        r = {'ok': smppref.header(0x80000004, 0, seq, b'idB%d\x00' % count[0]), 'reject': smppref.header(0x80000004, 0x58, seq),
+                             'nack': smppref.header(0x80000000, 3, seq)}[kind if kind in ('ok', 'reject', 'nack') else 'ok']
+                        obs['fed'].append(r)
+                        conn.send(r, delay=1.3)
+                elif cmd == 4:
+                    conn.send(smppref.header(0x80000004, 0, seq, b'idx%d\x00' % seq), delay=0.05)
+        smsc.on_pdu = on_pdu
+        fired = []
+
+        def egate(m, err):
+            if isinstance(m, SubmitSm):
+                obs['outcomes'].append((round(loop.time(), 2), m.log_id, type(err).__name__))
+                if m.log_id == 'A' and not fired:
+                    fired.append(1)
+                    smsc.conns[0].reset(delay=reset_after)
+                    # the receiver is busy in this very hook: it is the sender that notices the loss, with the next message
+                    loop.call_later(reset_after + 0.05, lambda: asyncio.ensure_future(esme.broker.enqueue(mk('X'))))
+                    return asyncio.sleep(hook_sleep)
+            return None
+        hook.error_gate = egate
+        src = PhoneNumber('38591')
+
+        def mk(lid):
+            kw = dict(short_message='hello', source=src, destination=src, log_id=lid, extra_data='X' + lid)
+            if lid == 'B' and kind == 'segmented':
+                kw.update(short_message='b' * 300, auto_message_payload=False)
+            return SubmitSm(**kw)
+
+        async def main():
+            t = asyncio.create_task(esme.start())
+            await asyncio.sleep(0.5)
+            await esme.broker.enqueue(mk('A'))
+            await esme.broker.enqueue(mk('B'))
+            for lid in ('C', 'D', 'E'):
+                await asyncio.sleep(6.0)
+                await esme.broker.enqueue(mk(lid))
+            await asyncio.sleep(6.0)
+            obs['start_done'] = t.done()
+            for e in hook.log:
+                if e[0] == 'received' and isinstance(e[1], (SubmitSmResp, GenericNack)) and e[1].log_id:
+                    obs['outcomes'].append((0, e[1].log_id, 'response'))
+                if e[0] == 'received' and bytes(e[2]) in obs['fed']:
+                    obs['resp_pdus'].append(bytes(e[2]))
+            t.cancel()
+            try:
+                await t
+            except BaseException:  # noqa: BLE001
+                pass
+        loop.run_until_complete(main())
+    finally:
+        undo()
+        vsess.finish(loop)
+    return obs
+
+
+def oracle_receiver_cancelled(obs):
+    if obs.get('start_done'):
+        return 'start() ended'
+    for lid in ('A', 'B', 'X', 'C', 'D'):
+        oc = [o for o in obs['outcomes'] if o[1] == lid]
+        if len(oc) != 1:
+            return (f'message {lid} got {len(oc)} outcomes: {oc}; the response PDU(s) to B reached the received hook {len(obs["resp_pdus"])} time(s) '
+                    f'(all outcomes: {obs["outcomes"]})')
+    return None
+
+
 def oracle_cancel_in_sweep(obs):
     if obs.get('start_done'):
         return 'start() ended'
@@ -794,6 +888,17 @@ def run(ctx):
                 ctx.violation(f'message B ({kind}) is written while an older message times out; the send_error hook for the older message takes {hook_sleep} s '
                               f'and the connection is lost {reset_after} s into it: {msg}',
                               {'scenario': 'cancel_in_sweep', 'kind': kind, 'hook_sleep': hook_sleep, 'reset_after': reset_after})
+    # ---- the receiver cancelled (connection loss noticed by the sender) inside the correlation of a response it has already read
+    for kind in ('ok', 'reject', 'nack', 'segmented'):
+        for hook_sleep, reset_after in ((3.0, 0.2), (0.3, 0.1)) + (((8.0, 1.0), (1.2, 0.6)) if ctx.thorough else ()):
+            obs = receiver_cancelled_session(hook_sleep, reset_after, kind)
+            ctx.traces += 1
+            ctx.case(('receiver_cancelled', kind, hook_sleep, reset_after), nontrivial=True)
+            msg = oracle_receiver_cancelled(obs)
+            if msg:
+                ctx.violation(f'B ({kind}) is answered while an older message times out; correlator.get() has taken B out of the store and awaits the '
+                              f'send_error hook for the older message ({hook_sleep} s); the connection is lost {reset_after} s into it: {msg}',
+                              {'scenario': 'receiver_cancelled', 'kind': kind, 'hook_sleep': hook_sleep, 'reset_after': reset_after})
     # ---- the sender cancelled at every point of a message (before / inside correlator.put() of each part): the real _dequeue_messages
     #      against Model/SenderCancel.v, whose rule the translator reads off the handler
     cancel_cases = []
@@ -857,6 +962,10 @@ def replay(ctx, path):
         obs = cancel_in_sweep_session(r['kind'], r['hook_sleep'], r['reset_after'])
         print('replay: outcomes (time, log_id, kind):', obs['outcomes'])
         msg = oracle_cancel_in_sweep(obs)
+    elif r.get('scenario') == 'receiver_cancelled':
+        obs = receiver_cancelled_session(r['hook_sleep'], r['reset_after'], r['kind'])
+        print('replay: outcomes (time, log_id, kind):', obs['outcomes'], '; response PDUs at the received hook:', len(obs['resp_pdus']))
+        msg = oracle_receiver_cancelled(obs)
     elif r.get('scenario') == 'cancel_point':
         reports, stored, kinds, parts = asyncio.run(run_cancel_point(r['kind'], r['k'], r['i'], r['where']))
         print(f'replay: send_error calls for the message: {reports} {kinds}; parts held by the correlator: {stored} of {r["k"]}')
